@@ -28,8 +28,15 @@ TRANSPARENT_CALLS = {"clone", "to_owned", "borrow", "borrow_mut", "as_ref", "as_
 
 
 class Sym:
-    def __init__(self, facts, transparent=TRANSPARENT_CALLS, inline_lets=True):
+    def __init__(self, facts, transparent=TRANSPARENT_CALLS, inline_lets=True, fold=False, inline_local=0):
         self.facts = facts
+        # fold: constant folding of enum constants -- a match / if whose scrutinee or condition is a known unit variant is
+        # replaced by the selected arm (so a body can be evaluated "for op == IntAdd"), `==`/`!=` of two constants become
+        # literals, an indirect call of a function reference becomes a call
+        # inline_local: depth to which calls of small crate-local functions are replaced by their evaluated bodies
+        self.fold = fold
+        self.inline_local = inline_local
+        self._depth = 0
         self.transparent = set(transparent)
         self.inline_lets = inline_lets
         self.effects = []  # statements evaluated for effect, in order: (term, node)
@@ -91,6 +98,37 @@ class Sym:
             for i, q in enumerate(pat["suf"]):
                 self.bind_pat(q, ("index", term, ("lit", i - len(pat["suf"]))), env)
 
+    def apply(self, f, arg):
+        """value of calling the function-valued term f on arg: closures (body evaluated), variant constructors, fn refs"""
+        f = value(f)
+        if f[0] == "closure":
+            c = self.facts.by_path.get(f[1])
+            if c is None:
+                return None
+            ps = [p_ for p_ in c["params"] if p_.get("p")]
+            if len(ps) == 2:
+                ps = ps[1:]
+            env2 = {}
+            if len(ps) == 1:
+                self.bind_pat(ps[0]["p"], arg, env2)
+            sub = Sym(self.facts, self.transparent, self.inline_lets, self.fold, self.inline_local)
+            sub._depth = self._depth
+            sub.scan(c["body"])
+            return sub.ev(c["body"], env2)
+        if f[0] == "fnref":
+            path = f[1]
+            g = self.facts.by_path.get(path)
+            if g is None:
+                # a tuple-variant constructor used as a function: Enum::Variant
+                parts = path.rsplit("::", 1)
+                if len(parts) == 2 and any(a["path"] == parts[0] or a["path"].endswith("::" + parts[0]) or parts[0].endswith(a["path"]) for a in self.facts.adts.values()):
+                    adt = [a for a in self.facts.adts.values() if a["path"] == parts[0] or parts[0].endswith(a["path"]) or a["path"].endswith("::" + parts[0])][0]
+                    if any(v["name"] == parts[1] for v in adt["variants"]):
+                        return ("adt", adt["path"], parts[1], (("0", arg),))
+                return ("call", path.rsplit("::", 1)[-1], (arg,), path)
+            return ("call", g["name"], (arg,), path)
+        return None
+
     def block(self, node, env):
         stmts = []
         for s in node["ss"]:
@@ -129,11 +167,48 @@ class Sym:
             return self.block(n, env)
         if k == "Call":
             if "f" not in n:
-                return ("callind", self.ev(n["fe"], env), tuple(self.ev(a, env) for a in n["a"]))
+                fe = self.ev(n["fe"], env)
+                if self.fold:
+                    fe = flow_norm(fe)
+                    if fe[0] == "fnref":
+                        return ("call", fe[1].rsplit("::", 1)[-1], tuple(self.ev(a, env) for a in n["a"]), fe[1])
+                    if fe[0] == "return":
+                        return fe
+                return ("callind", fe, tuple(self.ev(a, env) for a in n["a"]))
             args = tuple(self.ev(a, env) for a in n["a"])
             name = n["n"]
             if name in self.transparent and len(args) == 1:
                 return args[0]
+            if self.fold and name in ("eq", "ne") and len(args) == 2:
+                a0, a1 = value(args[0]), value(args[1])
+                if a0[0] == "adt" and a1[0] == "adt" and not a0[3] and not a1[3] and a0[1] == a1[1]:
+                    return ("lit", (a0[2] == a1[2]) == (name == "eq"))
+            if self.fold:
+                for a_ in args:
+                    av = value(a_)
+                    if av[0] == "return":
+                        return av       # evaluating the argument leaves the function
+                if name == "map_err" and len(args) == 2:
+                    # x.map_err(f) has the value of Ok(x?) up to the error type
+                    return ("adt", "core::result::Result", "Ok", (("0", ("try", args[0])),))
+                if name in ("map_or_else", "map_or") and len(args) == 3 and "result::Result" in (n.get("r") or n.get("f") or ""):
+                    x, dflt, okf = args
+                    okv = self.apply(okf, ("field", x, "Ok.0"))
+                    errv = self.apply(dflt, ("field", x, "Err.0")) if name == "map_or_else" else dflt
+                    if okv is not None and errv is not None:
+                        return ("match", x, (("Ok(_)", None, okv), ("Err(_)", None, errv)))
+            if self.inline_local and self._depth < self.inline_local and any(value(a_)[0] == "adt" and not value(a_)[3] for a_ in args):
+                # only helpers that are handed the dispatch constant are inlined (a helper per operator family)
+                g = self.facts.by_path.get(n.get("r") or "") or self.facts.by_path.get(n.get("f") or "")
+                if g is not None and g.get("dk") in ("Fn", "AssocFn") and len(g["params"]) == len(n["a"]) and sum(1 for _ in walk(g["body"])) < 500:
+                    sub = Sym(self.facts, self.transparent, self.inline_lets, self.fold, self.inline_local)
+                    sub._depth = self._depth + 1
+                    sub.scan(g["body"])
+                    env2 = {}
+                    for p_, a_ in zip(g["params"], args):
+                        if p_.get("p"):
+                            sub.bind_pat(p_["p"], a_, env2)
+                    return ("inlined", g["path"], sub.ev(g["body"], env2))
             return ("call", name, args, n.get("r") or n["f"])
         if k == "Binary":
             return ("bin", n["o"], self.ev(n["l"], env), self.ev(n["r"], env))
@@ -143,6 +218,13 @@ class Sym:
             return ("not" if n["o"] == "Not" else "neg", self.ev(n["e"], env))
         if k == "Cast":
             return ("cast", self.ev(n["e"], env), self.facts.ty(n))
+        if k == "If" and self.fold:
+            c = self.ev(n["c"], env)
+            cv = value(c)
+            if cv[0] == "lit" and isinstance(cv[1], bool):
+                if cv[1]:
+                    return self.ev(n["th"], env)
+                return self.ev(n["el"], env) if "el" in n else ("tuple", ())
         if k == "If":
             c = self.ev(n["c"], env)
             # local ids are unique per function and only never-mutated locals are inlined,
@@ -167,6 +249,20 @@ class Sym:
                 if sc.get("k") == "Call" and sc.get("n") == "branch":
                     return ("try", self.ev(sc["a"][0], env))
             sc = self.ev(n["e"], env)
+            if self.fold:
+                scv = value(sc)
+                if scv[0] == "adt" and not scv[3]:
+                    from .thir import pat_variant_names, WILD
+                    for a in n["arms"]:
+                        names = pat_variant_names(a["p"])
+                        if scv[2] in names or WILD in names:
+                            if "g" in a:
+                                g = value(self.ev(a["g"], env))
+                                if g == ("lit", False):
+                                    continue
+                                if g != ("lit", True):
+                                    break       # guard not decided: keep the whole match
+                            return self.ev(a["b"], env)
             arms = []
             for a in n["arms"]:
                 e2 = env
@@ -201,6 +297,92 @@ class Sym:
         if k == "Loop":
             return ("loop", self.ev(n["b"], env))
         return ("opaque", k)
+
+
+def _diverges(t):
+    t = value(t)
+    return isinstance(t, tuple) and t and t[0] == "return"
+
+
+def flow_norm(t):
+    """Normalise control flow into an if/else tree of values: guard clauses (`if c { return X }` followed by more code),
+    let-else, `return X` in value position and inlined helper bodies. The result has the same value on every path; statements
+    evaluated only for effect are dropped."""
+    if not isinstance(t, tuple) or not t:
+        return t
+    h = t[0]
+    if h == "inlined":
+        # `return` inside an inlined helper ends the helper, not the caller
+        return _unret_tree(flow_norm(t[2]))
+    if h == "return":
+        return ("return", flow_norm(t[1]))
+    if h == "seq":
+        stmts, tail = list(t[1]), t[2]
+        for i, st in enumerate(stmts):
+            rest = ("seq", tuple(stmts[i + 1:]), tail) if stmts[i + 1:] else tail
+            sv = st
+            if isinstance(sv, tuple) and sv and sv[0] == "ite":
+                a, b = flow_norm(sv[2]), flow_norm(sv[3])
+                if _diverges(a) and not _diverges(b):
+                    return ("ite", sv[1], value(a)[1], _unret(flow_norm(rest)))
+                if _diverges(b) and not _diverges(a):
+                    return ("ite", sv[1], _unret(flow_norm(rest)), value(b)[1])
+            if isinstance(sv, tuple) and sv and sv[0] == "letelse":
+                e = flow_norm(sv[3])
+                if _diverges(e):
+                    return ("ite", ("let", sv[1], sv[2]), _unret(flow_norm(rest)), value(e)[1])
+            if isinstance(sv, tuple) and sv and sv[0] == "return":
+                return ("return", flow_norm(sv[1]))
+        return flow_norm(tail)
+    if h == "ite":
+        return ("ite", t[1], _unret(flow_norm(t[2])), _unret(flow_norm(t[3])))
+    if h == "match":
+        return ("match", flow_norm(t[1]), tuple((p, g, _unret(flow_norm(b))) for p, g, b in t[2]))
+    def strict(children, rebuild):
+        cs = [flow_norm(c) for c in children]
+        for c in cs:
+            if _diverges(c):
+                return value(c)         # evaluating an operand leaves the function: so does the whole expression
+        return rebuild(cs)
+    if h == "call":
+        return strict(t[2], lambda cs: ("call", t[1], tuple(cs)) + tuple(t[3:]))
+    if h == "callind":
+        return strict((t[1],) + tuple(t[2]), lambda cs: ("callind", cs[0], tuple(cs[1:])))
+    if h == "adt":
+        return strict([x for f, x in t[3]], lambda cs: ("adt", t[1], t[2], tuple((f, c) for (f, _x), c in zip(t[3], cs))))
+    if h in ("cast",):
+        return strict([t[1]], lambda cs: ("cast", cs[0]) + tuple(t[2:]))
+    if h in ("try", "not", "neg"):
+        return strict([t[1]], lambda cs: (h, cs[0]))
+    if h in ("and", "or"):
+        return (h, flow_norm(t[1]), flow_norm(t[2]))
+    if h == "bin":
+        r = strict([t[2], t[3]], lambda cs: ("bin", t[1], cs[0], cs[1]))
+        if r[0] == "bin" and r[1] in ("Eq", "Ne"):
+            for a, b in ((r[2], r[3]), (r[3], r[2])):
+                if b[0] == "lit" and isinstance(b[1], bool):
+                    same = (r[1] == "Eq") == b[1]
+                    return a if same else ("not", a)
+        return r
+    if h == "field":
+        return strict([t[1]], lambda cs: ("field", cs[0], t[2]))
+    if h == "tuple":
+        return strict(t[1], lambda cs: ("tuple", tuple(cs)))
+    return t
+
+
+def _unret(t):
+    return t[1] if isinstance(t, tuple) and t and t[0] == "return" else t
+
+
+def _unret_tree(t):
+    """drop `return` markers at the leaves of an if/else/match tree (the tree is the whole value of an inlined body)"""
+    t = _unret(t)
+    if isinstance(t, tuple) and t and t[0] == "ite":
+        return ("ite", t[1], _unret_tree(t[2]), _unret_tree(t[3]))
+    if isinstance(t, tuple) and t and t[0] == "match":
+        return ("match", t[1], tuple((p, g, _unret_tree(b)) for p, g, b in t[2]))
+    return t
 
 
 def subterms(t):
